@@ -1,66 +1,262 @@
+mod corpus;
 mod gen;
 mod imp;
 mod model;
+mod oracle;
 mod prng;
+mod suites;
 
-use gen::*;
-use prng::Prng;
+use std::collections::{BTreeMap, HashSet};
+use std::sync::atomic::{AtomicU64, Ordering};
+use std::sync::{Arc, Mutex};
 
-fn significant(lines: &[String]) -> Vec<String> {
-    lines
-        .iter()
-        .filter(|l| !l.starts_with("# "))
-        .map(|l| {
-            // panic messages are not compared, only the fact
-            if let Some(i) = l.find(" panic") {
-                l[..i + 6].to_string()
-            } else {
-                l.clone()
-            }
-        })
-        .collect()
+pub struct Finding {
+    /// "oracle" (the implementation fails the property on this case), "model" (implementation and
+    /// model disagree on the property-relevant observables), "known" (attributed to a known finding)
+    pub kind: &'static str,
+    pub suite: String,
+    pub case_seed: u64,
+    pub what: String,
+    pub case_text: String,
+    pub imp: Vec<String>,
+    pub model: Vec<String>,
 }
+
+pub struct Report {
+    pub prop: String,
+    pub evaluations: u64,
+    pub distinct: HashSet<u64>,
+    pub nontrivial: HashSet<u64>,
+    pub hist: BTreeMap<String, u64>,
+    pub samples: Vec<String>,
+    pub findings: Vec<Finding>,
+    pub exhaustive: Vec<String>,
+    pub notes: Vec<String>,
+}
+
+impl Report {
+    pub fn bump(&mut self, key: &str) {
+        *self.hist.entry(key.to_string()).or_insert(0) += 1;
+    }
+    pub fn bump_n(&mut self, key: &str, n: u64) {
+        *self.hist.entry(key.to_string()).or_insert(0) += n;
+    }
+}
+
+pub struct Ctx {
+    pub prop: String,
+    pub tier: String,
+    pub seed: u64,
+    pub model: model::Model,
+    pub report: Report,
+    pub only_suite: Option<String>,
+    pub only_case: Option<u64>,
+    pub verbose: bool,
+    pub watchdog: Arc<Mutex<(std::time::Instant, String)>>,
+    pub max_findings: usize,
+}
+
+impl Ctx {
+    pub fn thorough(&self) -> bool {
+        self.tier == "thorough"
+    }
+    pub fn tick(&self, what: &str) {
+        let mut w = self.watchdog.lock().unwrap();
+        *w = (std::time::Instant::now(), what.to_string());
+    }
+    pub fn too_many(&self) -> bool {
+        self.report.findings.iter().filter(|f| f.kind != "known").count() >= self.max_findings
+    }
+}
+
+pub fn fnv(s: &str) -> u64 {
+    let mut h: u64 = 1469598103934665603;
+    for b in s.bytes() {
+        h = (h ^ b as u64).wrapping_mul(1099511628211);
+    }
+    h
+}
+
+pub fn json_str(s: &str) -> String {
+    let mut o = String::from("\"");
+    for c in s.chars() {
+        match c {
+            '"' => o.push_str("\\\""),
+            '\\' => o.push_str("\\\\"),
+            '\n' => o.push_str("\\n"),
+            '\r' => o.push_str("\\r"),
+            '\t' => o.push_str("\\t"),
+            c if (c as u32) < 0x20 => o.push_str(&format!("\\u{:04x}", c as u32)),
+            c => o.push(c),
+        }
+    }
+    o.push('"');
+    o
+}
+
+fn json_list(v: &[String]) -> String {
+    format!("[{}]", v.iter().map(|s| json_str(s)).collect::<Vec<_>>().join(","))
+}
+
+static CASES_DONE: AtomicU64 = AtomicU64::new(0);
 
 fn main() {
     imp::install_panic_hook();
     let args: Vec<String> = std::env::args().collect();
-    let seed: u64 = args.get(1).and_then(|s| s.parse().ok()).unwrap_or(1);
-    let n: usize = args.get(2).and_then(|s| s.parse().ok()).unwrap_or(100);
-    let model_path = args.get(3).cloned().unwrap_or("/verif/lean/.lake/build/bin/dtr_model".into());
-    let mut model = model::Model::spawn(&model_path).expect("spawn model");
-    let mut r = Prng::new(seed);
-    let prof = Profile::default_run();
-    let mut bad = 0;
-    for i in 0..n {
-        let mut cr = r.fork();
-        let case = gen_case(&mut cr, &prof);
-        let printed = print(&case.prog, &mut Prng::new(case.style_seed), &case.style);
-        if std::env::var("DBG").is_ok() { eprintln!("case {i}\n{}", printed.text); }
-        let run = imp::run_dynamic(&case, &printed.text);
-        if std::env::var("DBG").is_ok() { eprintln!("impl done: {:?}", run.lines); }
-        let req = imp::enc_run_request(&printed.text, &case.sigs, case.own_wo, &run.script, &run.epochs, case.cap, false);
-        if std::env::var("DBG").is_ok() { std::fs::write("/tmp/req.txt", format!("{req}\n")).unwrap(); }
-        let m = model.ask(&req);
-        let a = significant(&run.lines);
-        let b = significant(&m);
-        if a != b {
-            bad += 1;
-            if bad <= 3 {
-                println!("=== case {i} DISAGREE\n--- src:\n{}\n--- sigs: {:?}\n--- layout: {:?} fault: {:?}", printed.text, case.sigs, case.layout.iter().map(|s| &s.name).collect::<Vec<_>>(), case.fault);
-                for k in 0..a.len().max(b.len()) {
-                    let x = a.get(k).cloned().unwrap_or_default();
-                    let y = b.get(k).cloned().unwrap_or_default();
-                    if x != y {
-                        println!("I: {x}\nM: {y}");
-                        break;
-                    } else {
-                        println!("=: {x}");
-                    }
+    let mut prop = "C01".to_string();
+    let mut tier = "quick".to_string();
+    let mut seed: u64 = 1;
+    let mut model_path = "/verif/lean/.lake/build/bin/dtr_model".to_string();
+    let mut out_path = String::new();
+    let mut replay_dir = "/verif/replays".to_string();
+    let mut only_suite = None;
+    let mut only_case = None;
+    let mut verbose = false;
+    let mut i = 1;
+    while i < args.len() {
+        let a = &args[i];
+        let mut val = || {
+            i += 1;
+            args.get(i).cloned().unwrap_or_default()
+        };
+        match a.as_str() {
+            "--prop" => prop = val(),
+            "--tier" => tier = val(),
+            "--seed" => seed = val().parse().unwrap_or(1),
+            "--model" => model_path = val(),
+            "--out" => out_path = val(),
+            "--replay-dir" => replay_dir = val(),
+            "--suite" => only_suite = Some(val()),
+            "--case-seed" => only_case = val().parse().ok(),
+            "--verbose" => verbose = true,
+            _ => {
+                eprintln!("unknown argument {a}");
+                std::process::exit(2);
+            }
+        }
+        i += 1;
+    }
+    let model = model::Model::spawn(&model_path).expect("cannot start the Lean model driver");
+    let watchdog = Arc::new(Mutex::new((std::time::Instant::now(), "start".to_string())));
+    {
+        // a case that does not come back within the limit is reported as such instead of hanging the check
+        let w = watchdog.clone();
+        let prop = prop.clone();
+        let replay_dir = replay_dir.clone();
+        let out_path = out_path.clone();
+        std::thread::spawn(move || loop {
+            std::thread::sleep(std::time::Duration::from_millis(500));
+            let (t, what) = w.lock().unwrap().clone();
+            if t.elapsed().as_secs() > 60 {
+                let _ = std::fs::create_dir_all(&replay_dir);
+                let path = format!("{replay_dir}/{prop}-hang.json");
+                let _ = std::fs::write(
+                    &path,
+                    format!(
+                        "{{\"property\":{},\"kind\":\"oracle\",\"what\":\"a case did not terminate within 60 s (implementation or model hangs)\",\"case\":{}}}\n",
+                        json_str(&prop),
+                        json_str(&what)
+                    ),
+                );
+                if !out_path.is_empty() {
+                    let _ = std::fs::write(&out_path, format!("{{\"hang\":true,\"replay\":{}}}\n", json_str(&path)));
                 }
-                for l in run.lines.iter().filter(|l| l.starts_with("# ")) { println!("I{l}"); }
-                for l in m.iter().filter(|l| l.starts_with("# ")) { println!("M{l}"); }
+                println!("HANG replay={path}");
+                std::process::exit(3);
+            }
+        });
+    }
+    let mut ctx = Ctx {
+        prop: prop.clone(),
+        tier,
+        seed,
+        model,
+        report: Report {
+            prop: prop.clone(),
+            evaluations: 0,
+            distinct: HashSet::new(),
+            nontrivial: HashSet::new(),
+            hist: BTreeMap::new(),
+            samples: vec![],
+            findings: vec![],
+            exhaustive: vec![],
+            notes: vec![],
+        },
+        only_suite,
+        only_case,
+        verbose,
+        watchdog,
+        max_findings: 5,
+    };
+    let t0 = std::time::Instant::now();
+    if std::panic::catch_unwind(std::panic::AssertUnwindSafe(|| suites::run_property(&mut ctx))).is_err() {
+        eprintln!("harness bug: panic outside of a guarded call: {}", imp::take_panic());
+        std::process::exit(4);
+    }
+    let wall = t0.elapsed().as_secs_f64();
+    let _ = CASES_DONE.load(Ordering::Relaxed);
+
+    // replay files + JSON summary
+    let _ = std::fs::create_dir_all(&replay_dir);
+    let mut fjson = vec![];
+    for (n, f) in ctx.report.findings.iter().enumerate() {
+        let path = format!("{replay_dir}/{}-{}-{}-{n}.json", prop, seed, f.kind);
+        let body = format!(
+            "{{\"property\":{},\"kind\":{},\"suite\":{},\"case_seed\":{},\"what\":{},\"case\":{},\"implementation\":{},\"model\":{}}}\n",
+            json_str(&prop),
+            json_str(f.kind),
+            json_str(&f.suite),
+            f.case_seed,
+            json_str(&f.what),
+            json_str(&f.case_text),
+            json_list(&f.imp),
+            json_list(&f.model)
+        );
+        if f.kind != "known" {
+            let _ = std::fs::write(&path, body);
+        }
+        fjson.push(format!(
+            "{{\"kind\":{},\"suite\":{},\"case_seed\":{},\"what\":{},\"replay\":{}}}",
+            json_str(f.kind),
+            json_str(&f.suite),
+            f.case_seed,
+            json_str(&f.what),
+            json_str(&path)
+        ));
+    }
+    let hist: Vec<String> = ctx.report.hist.iter().map(|(k, v)| format!("{}:{}", json_str(k), v)).collect();
+    let summary = format!(
+        "{{\"property\":{},\"evaluations\":{},\"distinct\":{},\"distinct_nontrivial\":{},\"histogram\":{{{}}},\"samples\":{},\"exhaustive\":{},\"notes\":{},\"findings\":[{}],\"model_requests\":{},\"wall_s\":{:.2}}}\n",
+        json_str(&prop),
+        ctx.report.evaluations,
+        ctx.report.distinct.len(),
+        ctx.report.nontrivial.len(),
+        hist.join(","),
+        json_list(&ctx.report.samples),
+        json_list(&ctx.report.exhaustive),
+        json_list(&ctx.report.notes),
+        fjson.join(","),
+        ctx.model.requests,
+        wall
+    );
+    if out_path.is_empty() {
+        print!("{summary}");
+    } else {
+        std::fs::write(&out_path, &summary).expect("write summary");
+    }
+    let bad = ctx.report.findings.iter().filter(|f| f.kind != "known").count();
+    if ctx.verbose || bad > 0 {
+        for f in &ctx.report.findings {
+            eprintln!("--- {} [{}] suite={} case_seed={}\n{}\n{}", f.kind, prop, f.suite, f.case_seed, f.what, f.case_text);
+            if ctx.verbose {
+                for l in &f.imp {
+                    eprintln!("I: {l}");
+                }
+                for l in &f.model {
+                    eprintln!("M: {l}");
+                }
             }
         }
     }
-    println!("cases={n} disagreements={bad}");
+    std::process::exit(if bad > 0 { 1 } else { 0 });
 }
